@@ -424,6 +424,48 @@ def _table_rules(ctx: Ctx, flows: dict[str, ReleaseFlow]) -> None:
     ctx.check(bool(a_rets) and all(isinstance(r.value.elts[0], ast.Name) and r.value.elts[0].id in off_vars for r in a_rets), "RF-TABLE", "allocate-and-write-returns-allocated-offset", aw, a_rets[0] if a_rets else None,
               ok="allocate_and_write returns the offset obtained from the allocator first", bad="allocate_and_write's returned tuple does not start with the allocated offset")
 
+    # -- a direct write that outgrows its (estimated) allocation: the sink refuses, the region is given back and the caller goes inline
+    from ..exc import raised_class
+    from ..util import try_protecting
+
+    sink_ctors = [c for c in calls(aw) if any(t.cls is not None and t.cls.name == "_ShmSink" for t in ctx.res.resolve(aw, c, heuristic=False)) or (isinstance(c.func, ast.Name) and c.func.id == "_ShmSink")]
+    if sink_ctors:
+        sink_write = ctx.fn(SHM + ":_ShmSink.write")
+        refusals = sorted({raised_class(r) or "Exception" for r in walk_scope(sink_write.node) if isinstance(r, ast.Raise) and r.exc is not None})
+        if not refusals:
+            raise AnalysisError("anchor=_ShmSink.write bound refusal (no raise found)")
+        acfg = cfg_of(aw.node)
+        model29 = ExcModel(ctx.repo, ctx.res)
+        wcalls = [c for c in calls(aw) if last_attr(c) in ("write_batch", "new_ipc_stream", "close") and (acfg.attempt(c) & acfg.reach(acfg.done(sink_ctors[0]), include_start=False))]
+        if not wcalls:
+            raise AnalysisError("anchor=IPC writes into the _ShmSink in allocate_and_write")
+        bad_fb: list[str] = []
+        for cls_ in refusals:
+            for wc in wcalls:
+                h = None
+                for t in try_protecting(acfg, wc):
+                    h = model29.first_covering(t, cls_)
+                    if h is not None:
+                        break
+                if h is None:
+                    bad_fb.append(f"{cls_} raised by _ShmSink.write is not caught around `{txt(wc)[:40]}`")
+                    continue
+                frees = [c for st in h.body for c in walk_scope(st) if isinstance(c, ast.Call) and last_attr(c) == "free" and c.args and isinstance(c.args[0], ast.Name) and c.args[0].id in off_vars]
+                hstart: set[int] = set()
+                for st in h.body[:1]:
+                    hstart |= acfg.attempt(st)
+                fdone: set[int] = set()
+                for c in frees:
+                    fdone |= acfg.done(c)
+                leaves_unfreed = not frees or acfg.exit in acfg.reach(hstart, fdone)
+                none_ret = all(isinstance(r, ast.Return) and (r.value is None or (isinstance(r.value, ast.Constant) and r.value.value is None)) for st in h.body for r in walk_scope(st) if isinstance(r, ast.Return))
+                reraises = any(isinstance(r, ast.Raise) for st in h.body for r in walk_scope(st))
+                if leaves_unfreed or not none_ret or reraises:
+                    bad_fb.append(f"the handler for {cls_} around `{txt(wc)[:40]}` does not (free the region, return None)")
+        ctx.check(not bad_fb, "RF-EXC", "sink-overflow-falls-back-inline", aw, sink_ctors[0],
+                  ok=f"the refusal(s) {refusals} raised by _ShmSink.write when a direct write outgrows its allocation are caught around all {len(wcalls)} writer calls; the region is freed and None returned (inline transfer)",
+                  bad="a direct shm write that outgrows its estimated allocation does not fall back to inline transfer: " + "; ".join(bad_fb[:3]) + " -- the region stays allocated and the call fails instead of travelling inline")
+
     # -- fallbacks of maybe_write_to_shm
     mcfg = cfg_of(mw.node)
     mrets = [r for r in walk_scope(mw.node) if isinstance(r, ast.Return)]
